@@ -13,6 +13,10 @@ from ..sym import show
 from ..table import Row, lt, le, eq, ne, Int
 
 ASCII_WS = ((0x09, 0x0A), (0x0C, 0x0D), (0x20, 0x20))
+# the char -> UTF-8 normalisation is C07's subject; keep it as one opaque step here
+CHAR_OPAQUE = {"konst_kernel::chr::encode_utf8", "konst_kernel::chr::Utf8Encoded::as_bytes", "konst_kernel::chr::Utf8Encoded::as_str",
+               "konst_kernel::chr::char_formatting::encode_utf8", "konst_kernel::chr::char_formatting::Utf8Encoded::as_bytes",
+               "konst_kernel::chr::char_formatting::Utf8Encoded::as_str"}
 M = "konst::slice::slice_const_methods::"
 
 
@@ -300,7 +304,7 @@ def delegations(ctx, prog):
             continue
         short = fn.split("::")[-1]
         try:
-            paths = sym.split_bool_returns(sym.paths_of(b, prog, inline_all_loopfree=True, opaque=opaque | {
+            paths = sym.split_bool_returns(sym.paths_of(b, prog, inline_all_loopfree=True, opaque=opaque | CHAR_OPAQUE | {
                 "konst_kernel::string::__from_u8_subslice_of_str"}))
         except sym.TooManyPaths:
             ctx.violation("DLG", "%s|%s" % (prog.config, short), "too many paths", b.file())
